@@ -262,3 +262,104 @@ Proof.
   - intros j Hj. apply Hfr.
     exact (file_block_off_fat fsz _ v bl T e0 ch0 j L (di_tree _ _ _ _ _ _ Hdisk) (node_at_in _ _ _ Hat) Hj).
 Qed.
+
+(* ---- the truncating open: lookup (reads), handle counter, the chain is cut (FAT writes), the
+   clock is read, the slot is rewritten with size 0 (one block write), the record is pushed ---- *)
+Lemma open_trunc_crash fsz vid s vi v bl rch T h name di dd sfn bl' parent kids s1 md t :
+  open_ctx fsz vid s vi v bl rch T h name di dd sfn bl' parent kids s1 ->
+  find (t_matches sfn) (live_in_blocks (s_disk s) bl') = Some t ->
+  PrModes.open_refusal md (Ok (t_entry (v_fat32 v) t)) (PrModes.is_open s1 (d_vol dd) (t_entry (v_fat32 v) t)) = None ->
+  md = ReadWriteTruncate \/ md = ReadWriteCreateOrTruncate ->
+  exists id s', open_file_in_dir h name md s = (Ok id, s') /\
+    crash_all (keeps_tree v (s_disk s) T (slot_of (t_entry (v_fat32 v) t))) s s'.
+Proof.
+  intros [Hat Hfresh Hres Hvol Hroom Hsfn He5 Hdot Hctx Hlook Hro Hrd] Hfind Href Hmd.
+  rewrite Hfind in Hlook. set (e := t_entry (v_fat32 v) t) in *.
+  destruct (refusal_none_ok _ _ _ Href) as (Hop & Hnd & _).
+  pose proof (go_ro _ _ _ _ _ _ _ _ _ Hat Hro) as Hat1.
+  pose proof Hro as (Hd & Hc1 & Hnf1 & Hm1). pose proof Hm1 as (M1 & M2 & M3 & M4 & M5 & M6 & _).
+  pose proof (sfn_of_str_wf _ _ Hsfn) as Hwf.
+  rewrite <- Hd in Hctx, Hfind.
+  destruct (found_file _ _ _ _ _ _ _ _ _ _ Hctx Hwf He5 Hdot Hfind Hnd) as (ch & Hk & Hall & Hr & Hn & Hshort & Hname).
+  fold e in Hk, Hall, Hr.
+  destruct (node_rep_slot _ _ _ _ _ Hr Hn) as (Hb & Ho & Hts & Hde & Hns). cbn [node_entry] in Hb, Ho, Hts, Hde.
+  set (sg := set_s_next_id s1 ((s_next_id s1 + 1) mod U32)).
+  pose proof (go_bump _ _ _ _ _ _ _ _ ((s_next_id s1 + 1) mod U32) Hat1) as Hatg. fold sg in Hatg.
+  destruct (go_facts _ _ _ _ _ _ _ _ Hatg) as (Hlg & Hnfg & Hcg & Evg & E0 & Hv0g & Hv & L & Hwfg & Hvid). subst vi.
+  destruct (trunc_step _ _ _ _ _ _ _ _ e ch Hatg Hall) as (s2 & v2 & ws1 & Htr & G & Evols2 & Hpre2 & Hwf2 & Htabs & F4 & Hcase & Hts1 & Hcl1).
+  pose proof Htabs as (T1 & T2 & T3 & T4 & T5 & _).
+  pose proof Hpre2 as ((Hnf2 & Hc2 & Hvi2 & Hlen2) & L2 & Hh2).
+  set (now := clock_ts (s_clock s2)).
+  set (s3 := set_s_clock s2 (s_clock s2 + 1)).
+  set (e' := set_e_mtime (set_e_size e 0) now).
+  assert (Ects : ts_ok (e_ctime e)) by (unfold e, t_entry, get_entry; apply ts_from_fat_ok).
+  destruct (write_entry_to_disk_spec v2 e' s3 Hnf2 Hc2 Ects ltac:(apply ts_cal_ok, clock_ts_cal) Ho)
+    as (s4 & Hwrite & Hd4 & _ & Hfr4 & _ & _ & Hc4 & Hnf4 & Hm4 & Htr4).
+  cbn [e_block e' set_e_mtime set_e_size] in Hd4, Hfr4, Htr4.
+  change (s_disk s3) with (s_disk s2) in Hd4, Hfr4.
+  assert (E32 : v_fat32 v2 = v_fat32 v) by (destruct G as (a & b & ->); reflexivity).
+  rewrite E32 in Hd4.
+  set (nf := mk_fileinfo (s_next_id s1) (d_vol dd) 0 (e_cluster e) 0 ReadWriteTruncate e' false).
+  assert (Hopen : open_file_in_dir h name md s = (Ok (s_next_id s1), set_s_files s4 (s_files s4 ++ [nf]))).
+  { pose proof (PrModes.resolves_vol_id _ _ _ _ _ _ Hres) as Hvid'.
+    assert (Htail : (truncate_cluster_chain 0%nat (e_cluster e) ;;;
+                     now0 <- get_timestamp ;;
+                     v' <- get_vol 0%nat ;;
+                     write_entry_to_disk v' (set_e_mtime (set_e_size e 0) now0) ;;;
+                     push_file (set_f_entry (mk_fileinfo (s_next_id s1) (d_vol dd) 0 (e_cluster e) 0
+                                                         ReadWriteTruncate e false)
+                                            (set_e_mtime (set_e_size e 0) now0)) ;;; ret (s_next_id s1)) sg
+                    = (Ok (s_next_id s1), set_s_files s4 (s_files s4 ++ [nf]))).
+    { rewrite (bind_ok _ _ _ _ _ Htr), (bind_ok _ _ _ _ _ (get_timestamp_eq s2)).
+      rewrite (bind_ok _ _ _ _ _ (get_vol_some 0%nat _ s3 Hvi2)), (bind_ok _ _ _ _ _ Hwrite). reflexivity. }
+    unfold open_file_in_dir. PrModes.open_prefix Hres Hroom Hsfn.
+    unfold PrModes.dot_name in Hdot. rewrite Hdot.
+    unfold bind at 1. unfold try. rewrite Hlook.
+    rewrite PrModes.bind_ret, (bind_ok _ _ _ _ _ (PrModes.file_is_open_eq _ _ _)), Hvid'.
+    cbn [PrModes.open_refusal] in Href.
+    destruct (PrModes.is_open s1 (d_vol dd) e) eqn:Hop'; [discriminate|].
+    destruct (mode_eqb md ReadWriteCreate) eqn:Hcm; [discriminate|].
+    destruct (is_read_only (e_attr e) && negb (mode_eqb md ReadOnly)) eqn:Hrr; [discriminate|].
+    destruct (is_directory (e_attr e)) eqn:Hdd; [discriminate|].
+    destruct Hmd as [-> | ->]; cbn [solve_mode_variant mode_eqb] in *;
+      rewrite Hrr, (bind_ok _ _ _ _ _ (PrModes.file_is_open_eq _ _ _)), Hop',
+              (bind_ok _ _ _ _ _ (generate_spec s1)); exact Htail. }
+  eexists. eexists. split; [exact Hopen|].
+  set (s5 := set_s_files s4 (s_files s4 ++ [nf])).
+  set (P := keeps_tree v (s_disk s) T (slot_of e)).
+  pose proof (fi_disk _ _ _ _ _ _ _ _ Hatg) as Hdiskg.
+  pose proof (fi_vol _ _ _ _ _ _ _ _ Hatg) as (_ & _ & Hfit & _).
+  pose proof (fi_layout _ _ _ _ _ _ _ _ Hatg) as PL.
+  assert (Edg : s_disk sg = s_disk s) by exact Hd.
+  assert (P0 : P (s_disk s)).
+  { apply (keeps_tree_same v (s_disk s) bl rch T (pend_of sg v)). rewrite <- Edg. exact (disk_inv_crash_inv_at _ _ _ _ _ _ Hdiskg). }
+  (* the parts of the run *)
+  assert (X01 : tr_ext s sg []).
+  { destruct (reads_only_tr_ext s s1 Hrd) as (new & Et & Ew & Ed). exists new. split; [exact Et|]. split; [exact Ew|exact Ed]. }
+  destruct (trunc_crash fsz vid sg 0%nat v bl rch T e ch Hatg Hall s2 Htr) as (Tr12 & Hall12).
+  assert (X25 : tr_ext s2 s5 [(e_block e, put_entry (v_fat32 v2) e' (disk_get (s_disk s2) (e_block e)))]).
+  { apply (tr_ext_one_write s2 s5 _ _ (e_block e)); [rewrite E32; exact Hd4|exact Htr4]. }
+  assert (P2 : P (s_disk s2)).
+  { unfold P. rewrite <- Edg. exact (Hall12 _ (crash_disks_new sg s2 Tr12)). }
+  (* the final medium *)
+  assert (P5 : P (s_disk s5)).
+  { assert (Hoffe : off_fat v fsz (e_block e)) by exact (node_block_off_fat _ _ _ _ _ _ _ _ _ Hatg Hall).
+    destruct (trunc_disk_x fsz (s_disk sg) (s_disk s2) v bl rch T (pend_of sg v) e ch e' Hdiskg Hwfg L Hfit Hall Hoffe
+                (tree_dir_blocks_off_fat fsz _ v bl rch T _ L PL Hdiskg) eq_refl eq_refl eq_refl eq_refl eq_refl eq_refl F4 Hcase)
+      as (T' & Hdisk4 & Hpaths & Hfr).
+    change (s_disk s5) with (s_disk s4). rewrite Hd4.
+    exists bl, rch, T', (pend_of sg v). split; [exact (disk_inv_crash_inv_at _ _ _ _ _ _ Hdisk4)|].
+    intros path e0 ch0 Hna Hne. split; [exact (Hpaths path e0 ch0 Hna Hne)|].
+    intros j Hj. rewrite <- Edg. apply Hfr.
+    - exact (file_block_off_fat fsz _ v bl T e0 ch0 j L (di_tree _ _ _ _ _ _ Hdiskg) (node_at_in _ _ _ Hna) Hj).
+    - intros ->. apply (file_block_not_dir fsz _ v bl rch T _ e0 ch0 (e_block e) Hdiskg PL (node_at_in _ _ _ Hna) Hj).
+      destruct (dx_where _ _ _ _ _ _ _ _ Hctx) as [(_ & Ebl & _)|(e1 & ch1 & Hn1 & _ & Ebl & _)]; rewrite Ebl in Hb.
+      + unfold tree_dir_blocks. apply in_or_app. left. exact Hb.
+      + exact (all_nodes_dir_blocks v bl T e1 ch1 kids Hn1 _ Hb). }
+  apply (crash_all_trans P s sg s5 (tr_ext_traced _ _ _ X01)).
+  - exact (traced_trans _ _ _ Tr12 (tr_ext_traced _ _ _ X25)).
+  - exact (crash_all_nil P s sg X01 P0).
+  - apply (crash_all_trans P sg s2 s5 Tr12 (tr_ext_traced _ _ _ X25)).
+    + intros d' Hd'. unfold P. rewrite <- Edg. exact (Hall12 d' Hd').
+    + exact (crash_all_one P s2 s5 _ _ X25 P2 P5).
+Qed.
